@@ -17,6 +17,8 @@ package operator
 
 import (
 	"context"
+	"crypto/sha256"
+	"encoding/hex"
 	"fmt"
 	"os"
 	"strconv"
@@ -73,6 +75,7 @@ const (
 	defaultEtcdStorageSize           = "10Gi"
 	defaultEtcdReplicas              = 3
 	defaultSnapshotBucketPrefix      = "kafscale-etcd"
+	maxS3BucketNameLength            = 63
 	defaultSnapshotPrefix            = "etcd-snapshots"
 	defaultSnapshotSchedule          = "0 * * * *"
 	defaultSnapshotImage             = "amazon/aws-cli:2.15.0"
@@ -867,6 +870,14 @@ func sanitizeBucketName(raw string) string {
 	out := strings.Trim(b.String(), "-")
 	if out == "" {
 		return defaultSnapshotBucketPrefix
+	}
+	if len(out) > maxS3BucketNameLength {
+		// S3 bucket names are limited to 63 characters. Keep a readable prefix
+		// and append a short digest of the full name so that two long
+		// namespace/cluster names never collapse into the same bucket.
+		sum := sha256.Sum256([]byte(out))
+		suffix := hex.EncodeToString(sum[:4])
+		out = strings.TrimRight(out[:maxS3BucketNameLength-len(suffix)-1], "-") + "-" + suffix
 	}
 	return out
 }
